@@ -921,7 +921,10 @@ let run (lineno : int) (lbc : str -> n list) ofit (args : string array) (impl : 
         else say "C19" "ok" ""
     | "dedent" ->
         let s = ds (f 1) in
-        if ds impl = dedent_spec s then say "C18" "ok" "spec" else say "C18" "FAIL" "not the text minus the longest common whitespace margin"
+        let r = ds impl in
+        if r <> dedent_spec s then say "C18" "FAIL" "not the text minus the longest common whitespace margin"
+        else if List.length (split_lf r) <> List.length (split_lf s) then say "C18" "FAIL" "the number of line breaks changed"
+        else say "C18" "ok" "spec"
     | "dedent18" ->
         let s = ds (f 1) and p = ds (f 2) in
         (match ps with
